@@ -909,7 +909,7 @@ theorem child_sim {g : Graph} {n : Nat} {e : Expr} (i : Nat) (h : Rep g n e) :
     · simp only [h0, if_true]
       exact ⟨fun c hc => (by cases hc; exact ⟨a, rfl, ha⟩), fun hc => (by cases hc)⟩
     · by_cases h1' : i = 1
-      · simp only [h0, h1', if_true, if_false]
+      · simp only [h1', if_true]
         exact ⟨fun c hc => (by simp at hc; subst hc; exact ⟨b, by simp, hb⟩), fun hc => (by simp at hc)⟩
       · simp only [h0, h1', if_false]
         exact ⟨fun c hc => (by cases hc), fun _ => (by simp)⟩
